@@ -82,6 +82,14 @@ func classify(c Case) (labels []string, nontrivial bool) {
 	return labels, maxsteps >= 2 && feature
 }
 
+// valueOf: the free tree's values; a node named "ll" is a leaf-list with two values (as the model has it).
+func valueOf(id tree.ID) (xpath.Datum, error) {
+	if IsLeafList(id) {
+		return xpath.NewDatumSliceDatum([]xpath.Datum{xpath.NewLiteralDatum(tree.DefaultValue(id) + "#1"), xpath.NewLiteralDatum(tree.DefaultValue(id) + "#2")}), nil
+	}
+	return xpath.NewLiteralDatum(tree.DefaultValue(id)), nil
+}
+
 func checkCase(c Case) fw.Outcome {
 	labels, nt := classify(c)
 	out := fw.Outcome{Labels: labels, NonTrivial: nt}
@@ -127,7 +135,7 @@ func checkCase(c Case) fw.Outcome {
 	var firstTrace []tree.Call
 	for pass := 0; pass < 2; pass++ {
 		m, want, werr := models[pass], wants[pass], werrs[pass]
-		tr := &tree.Tree{}
+		tr := &tree.Tree{ValueOf: valueOf}
 		if pass == 1 {
 			tr.Absent = func(v string) bool { return onlyFirst[v] }
 		}
@@ -220,7 +228,7 @@ func checkCase(c Case) fw.Outcome {
 				out.Violation = fmt.Sprintf("%q compiles, the same with the predicates in the opposite order (%q) does not: %v", src, rsrc, err)
 				return out
 			}
-			tr := &tree.Tree{}
+			tr := &tree.Tree{ValueOf: valueOf}
 			xpath.NewCtxFromCurrent(context.Background(), rm, tr.At(ctxs[0])).Run()
 			questions := func(calls []tree.Call) []string {
 				var q []string
